@@ -2,9 +2,9 @@ package main
 
 import (
 	"encoding/json"
-	"strings"
 	"errors"
 	"fmt"
+	"strings"
 	"time"
 
 	"github.com/my-cloud/ruthenium/validatornode/application"
